@@ -121,3 +121,101 @@ Definition c07_run (k : kind) (n : Z) (ops : list op) : bool :=
   c07_run_from (cap_of k n) (new_coll k n, mkWriter [] [] false) [] ops.
 
 End Zlib.
+
+(* ---- hypotheses and auxiliary notions of the C07 / C08 theorems (Props/C07.v,
+   Props/C08.v); propositions only, nothing here is extracted ---- *)
+Section C07C08Statements.
+
+
+(* the collectors that compare schema signatures (bson_hash.go) *)
+Definition sig_aware (k : kind) : bool := match k with KDyn | KSDyn => true | _ => false end.
+
+(* a sample document the format can carry: representable keys and values, below
+   BSON's 2 GiB limit, metric count within the uint32 field, and not in the class
+   of the known finding D1 (timestamp seconds) *)
+Definition doc_wf (d : doc) : Prop :=
+  doc_ok d = true /\ doc_leaves_ok d = true /\ small (enc_doc d) /\ doc_has_ts_seconds d = false /\
+  (N.of_nat (length (flatten_doc d)) < 2 ^ 32)%N.
+
+(* two documents the collector cannot tell apart really have one schema: the
+   fixed-schema collectors compare metric count and metric types only, the
+   schema-aware ones additionally the signature *)
+Definition distinguishable (k : kind) (D : doc -> Prop) : Prop :=
+  forall a b, D a -> D b -> map fst (flatten_doc a) = map fst (flatten_doc b) ->
+    (sig_aware k = true -> schema_sig a = schema_sig b) -> skeleton_doc a = skeleton_doc b.
+
+Definition ops_added (ops : list op) (d : doc) : Prop := exists now, In (OAdd d now) ops.
+
+Definition ops_ok (k : kind) (ops : list op) : Prop :=
+  (forall d, ops_added ops d -> doc_wf d) /\ distinguishable k (ops_added ops).
+
+(* what a collector and its writer hold, as the reader sees it: the samples
+   decodable from the writer followed by those decodable from Resolve *)
+Definition c07_contents (deflate : bytes -> bytes) (inflate : bytes -> option bytes) (st : coll * writer)
+  : option (list doc) :=
+  match decode_ftdc inflate None (emitted (snd st)), decode_out inflate None (c_resolve deflate (fst st)) with
+  | Some a, Some b => Some (dc_docs a ++ dc_docs b)
+  | _, _ => None
+  end.
+
+(* the state reached by a history on a fresh collector and a fault-free writer *)
+Definition c07_reach (deflate : bytes -> bytes) (k : kind) (n : Z) (ops : list op) : coll * writer :=
+  fst (run deflate (new_coll k n, mkWriter [] [] false) ops).
+
+(* C08: what the schema-aware collectors compare between consecutive documents:
+   the dynamic collector the key string only, the streaming dynamic collector the
+   key string and the metric count *)
+Definition same_sig (k : kind) (a b : doc) : Prop :=
+  match k with
+  | KDyn => fst (schema_sig a) = fst (schema_sig b)
+  | _ => schema_sig a = schema_sig b
+  end.
+
+(* no change of value types alone: documents the collector takes for one schema
+   have the same metric types *)
+Definition no_type_only_change (k : kind) (docs : list doc) : Prop :=
+  forall a b, In a docs -> In b docs -> same_sig k a b -> map fst (flatten_doc a) = map fst (flatten_doc b).
+
+Definition docs_ok (k : kind) (docs : list doc) : Prop :=
+  Forall doc_wf docs /\ distinguishable k (fun d => In d docs) /\ no_type_only_change k docs.
+
+(* C08, no mixing: a base collector (one chunk) whose reference document is r
+   holds only rows of r's metric count, and its last sample has r's metric types *)
+Definition bc_unmixed (b : bcoll) : Prop :=
+  match bc_ref b with
+  | None => True
+  | Some r => map fst (bc_last b) = map fst (flatten_doc r) /\
+              Forall (fun row : list Z => length row = length (flatten_doc r)) (bc_rows b)
+  end.
+
+(* every chunk under construction inside a collector *)
+Definition bcolls_of (c : coll) : list bcoll :=
+  match c with
+  | CBase b => [b]
+  | CBatch b => ba_chunks b
+  | CDyn x => flat_map ba_chunks (dy_chunks x)
+  | CStream s => match sc_inner s with IB b => [b] | IU _ => [] end
+  | CSDyn s => match sc_inner (sd_s s) with IB b => [b] | IU _ => [] end
+  | CUnc _ => []
+  end.
+
+Definition unmixed (c : coll) : Prop := Forall bc_unmixed (bcolls_of c).
+
+(* C07, Reset: the metadata a Reset keeps (base, streaming and streaming dynamic
+   collectors keep it, batch and dynamic collectors are rebuilt without it), and
+   the freshly constructed collector carrying it *)
+Definition meta_kept (c : coll) : option doc :=
+  match c with
+  | CBase b => bc_meta b
+  | CStream s => match sc_inner s with IB b => bc_meta b | IU u => uc_meta u end
+  | CSDyn x => match sc_inner (sd_s x) with IB b => bc_meta b | IU u => uc_meta u end
+  | _ => None
+  end.
+
+Definition fresh_like (k : kind) (n : Z) (c : coll) : coll :=
+  match k with
+  | KBatch | KDyn => new_coll k n
+  | _ => c_set_meta (new_coll k n) (meta_kept c)
+  end.
+
+End C07C08Statements.
